@@ -18,14 +18,16 @@ class LevyForwardModel(LevyDrivenSDEModel):
         sigma: np.array,
         driver: LevyDriver,
     ):
+        # the tenors come as a list: the coefficient function and the accrual periods need the sorted array
+        sorted_tenors = np.array(sorted(tenors))
         super().__init__(
             driver=driver,
             x0=np.array(ois_rates),
-            a=ForwardMarketSDEFunction(sigma=sigma, tenors=tenors),
+            a=ForwardMarketSDEFunction(sigma=sigma, tenors=sorted_tenors),
         )
-        self.tenors = np.array(sorted(tenors))
+        self.tenors = sorted_tenors
         self.sigma = sigma
-        self.deltas = np.diff(tenors).astype(float)
+        self.deltas = np.diff(sorted_tenors).astype(float)
 
         # consistency checks:
         if not driver.finite_first_moment():
